@@ -60,7 +60,8 @@ Proof.
     + repeat constructor. exists (TName "A" Unset), (TName "A" Lin), []. repeat split; try reflexivity. constructor.
     + repeat constructor. exists (TName "A" Unset), (TName "A" Lin). repeat split; reflexivity.
     + constructor.
-  - constructor; cbn; try (repeat constructor; fail); try tauto.
+  - constructor; cbn; try (repeat constructor; fail); try tauto;
+      try (intros q n [<-|[]] [<-|[]] [S E]; discriminate E).
     1,3: (constructor; [cbn; tauto|constructor]).
     exists hello_sg. split; [|split].
     + repeat constructor. exists (TName "A" Lin), (TUnit Lin). repeat split; try reflexivity. hd.
